@@ -6,6 +6,7 @@ from engine.astutil import U, calls, kwargs, single_defs, inline, walk_own, call
 from engine.fresh import Freshness, FRESH, BORROWED, UNKNOWN
 from engine.norm import Norm, Poly, parse_expr
 from engine.repo import AnalysisError
+from . import common
 
 EXPLANATION = (
     "Static decision of the structural clauses of C09 for both shipped MCMC sample types: (R1) nothing reachable "
@@ -24,8 +25,9 @@ RULES = {
     "R4": "control neutrality: who-may-index, helper zeroes sentinel rows of the same index array, pair|second=control == single",
     "R5": "output transforms: clip(expit(Mu), 0.01, 0.99); repeat(1/precision, data.size)",
     "R6": "stacked/averaged helpers: row i <- get_theta(i).<same-named predict>(screen), i in range(n_thetas); mean = sum / n_thetas",
+    "R7": "the derived screen attributes this property's code relies on (size, treatment_arity) have their documented definitions in ScreenBase and every override",
 }
-MIN = {"R1": 8, "R2": 3, "R3": 2, "R4": 5, "R5": 4, "R6": 5}
+MIN = {"R1": 8, "R2": 3, "R3": 2, "R4": 5, "R5": 4, "R6": 5, "R7": 2}
 TRUSTED = ["numpy: advanced indexing copies; negative index -1 selects the last row (which the helper then zeroes)",
            "expit/clip are element-wise"]
 TECHNIQUE = "freshness analysis over the predict call closure, polynomial normal forms with symmetry/substitution checks"
@@ -462,7 +464,11 @@ def run(ctx):
     r6(ctx)
 
 
-RULE_FUNCS = [r1, r2, r3, r4, r5, r6]
+def r_derived(ctx):
+    common.derived_attributes(ctx, "R7", ['size', 'treatment_arity'])
+
+
+RULE_FUNCS = [r1, r2, r3, r4, r5, r6, r_derived]
 
 
 def _rep(a, b):
